@@ -7,6 +7,7 @@ C22 checker.  A real Serf node with a memberlist keyring and a keyring file.
   `install|use|remove <hexkey>`   the request, through `KeyManager` (a real internal query, handled by
                                   handleInstallKey / handleUseKey / handleRemoveKey, response awaited)
   `raw install|use|remove <hex>`  an internal query with an empty / undecodable payload, injected through NotifyMsg
+  `restart`                       shut the node down, load the keyring file with the agent's real loader, start a new node on it
 
 Output of every op: `<status> ring=<keys> primary=<key> file=<keys|NONE|ERR>` with
 status ∈ ok | badlen | absent | primary | nokeyring | sent (raw) | err…;  `ring`/`primary` =
@@ -99,6 +100,21 @@ def step (s : St) (op : List String) (impl : String) : LineOut St :=
       | some ring =>
         let n : Node := { ring := ring, file := if hasFile && !keys.isEmpty then some keys else none, hasFile := hasFile }
         { state := upd { s with m := some n }, model := some (showNode "ok" n), monitor := mon hasFile true }
+  | ["restart"] =>
+    match s.m with
+    | none => { state := s, model := some "bad-op" }
+    | some n =>
+      match n.file.bind load with
+      | none => { state := { s with m := none }, model := some "restart-failed" }
+      | some r =>
+        let n' : Node := { n with ring := r }
+        let m := match i? with
+          | some i =>
+            if i.ring != s.implRing then
+              some ("restart-mismatch", s!"ring before the restart {s.implRing}, after it {i.ring}")
+            else monitor s n.hasFile true i
+          | none => some ("restart-mismatch", s!"the node did not come back on its own keyring file: {impl}")
+        { state := upd { s with m := some n' }, model := some (showNode "ok" n'), monitor := m }
   | [o, k] =>
     match s.m, opOf? o, bytesOfHex? k with
     | some n, some op, some key =>
